@@ -38,8 +38,8 @@ let run_case (id : string) (c : case) (obs : Buffer.t) : bool =
         let bits = b01 (v_eq a b m) ^ b01 (v_ne a b m) ^ b01 (v_lt a b m) ^ b01 (v_le a b m) ^ b01 (v_gt a b m)
                    ^ (if rank = 1 || !has_ge then b01 (v_ge a b m) else "-") in
         (* views, owning copies, mixed: one value, whatever the layout or ownership *)
-        pr (Printf.sprintf "C %s %s%s view=%s array=%s mixed=%s%s" id names.(p) names.(q) bits (String.sub bits 0 5)
-              (b01 (v_eq a b m)) (b01 (v_ne a b m))))
+        let en = b01 (v_eq a b m) ^ b01 (v_ne a b m) in
+        pr (Printf.sprintf "C %s %s%s view=%s array=%s mixed=%s" id names.(p) names.(q) bits (String.sub bits 0 5) (en ^ en ^ en ^ en)))
       pairs;
     true
   end
